@@ -69,7 +69,10 @@ impl<'a, 'tcx> D<'a, 'tcx> {
         let tcx = self.cx.tcx;
         let mut o: Vec<(&'static str, J)> = vec![];
         match &p.kind {
-            hir::PatKind::Wild => o.push(("k", J::s("Wild"))),
+            hir::PatKind::Wild => {
+                o.push(("k", J::s("Wild")));
+                o.push(("ty", J::s(self.cx.ty_str(self.tr.pat_ty(p)))));
+            }
             hir::PatKind::Missing => o.push(("k", J::s("Missing"))),
             hir::PatKind::Never => o.push(("k", J::s("Never"))),
             hir::PatKind::Binding(mode, hid, ident, sub) => {
